@@ -370,6 +370,12 @@ class UnpackedObjectStream:
         raise NotImplementedError(self.__len__)
 
 
+# Sizes and offsets in a pack are at most 64 bits wide (10 bytes of 7 bits);
+# a longer run of continuation bytes is damage, and decoding it costs time
+# quadratic in its length.
+_MAX_MSB_BYTES = 16
+
+
 def take_msb_bytes(
     read: Callable[[int], bytes], crc32: int | None = None
 ) -> tuple[list[int], int | None]:
@@ -384,6 +390,8 @@ def take_msb_bytes(
     """
     ret: list[int] = []
     while len(ret) == 0 or ret[-1] & 0x80:
+        if len(ret) >= _MAX_MSB_BYTES:
+            raise AssertionError("variable-length number in pack data is too long")
         b = read(1)
         if crc32 is not None:
             crc32 = binascii.crc32(b, crc32)
@@ -407,6 +415,8 @@ def take_msb_bytes_at(
     ret: list[int] = []
     pos = offset
     while len(ret) == 0 or ret[-1] & 0x80:
+        if len(ret) >= _MAX_MSB_BYTES:
+            raise AssertionError("variable-length number in pack data is too long")
         b = contents[pos : pos + 1]
         if not b:
             raise AssertionError(f"unexpected end of pack data at {pos}")
